@@ -63,14 +63,23 @@ def run_property(pm, tier, seed, only_cfg=None, only_case=None, jobs=None):
     funcs = set(); intr = set(); stubs = set(); libm = set(); samples = []; cfgkeys = []; compile_matrix = {}; per_cfg = {}
     opts_base = {'seed': seed, 'timeout': getattr(pm, 'TIMEOUT', {}).get(tier, 10), 'nval': 2 if tier == 'quick' else 3}
     opts_base.update(getattr(pm, 'OPTS', {}))
+    # configurations are independent programs: run up to PAR of them concurrently (their slow tails overlap);
+    # each batch owns a process pool, the threads here only wait for them
+    work = []
     for cfg in pm.cfgs(tier):
         if only_cfg and not re.fullmatch(only_cfg, cfg.key()): continue
         cases = pm.cases(tier, cfg, seed)
         if only_case: cases = [c for c in cases if re.fullmatch(only_case, c.id)]
         if not cases: continue
+        work.append((cfg, cases))
+    PAR = min(int(os.environ.get('FSV_PAR_CFG', '3')), max(1, len(work)))
+    if PAR > 1: batch.NPROC = max(6, (int(os.environ.get('FSV_JOBS', '16')) * 3 // 2) // PAR)
+    from concurrent.futures import ThreadPoolExecutor
+    with ThreadPoolExecutor(PAR) as tp:
+        futs = [tp.submit(batch.run_batch, f'{prop}_{tier}', cases, cfg, opts_base, getattr(pm, 'PRELUDE', '')) for cfg, cases in work]
+        outs = [f.result() for f in futs]
+    for (cfg, cases), out in zip(work, outs):
         cfgkeys.append(cfg.key())
-        # cases may carry distinct extra preludes -> group
-        out = batch.run_batch(f'{prop}_{tier}', cases, cfg, opts_base, extra_prelude=getattr(pm, 'PRELUDE', ''))
         byid = {c.id: c for c in cases}
         per_cfg[cfg.key()] = {'cases': len(cases), 'wall_s': round(out.get('wall', 0), 1), 'compile_s': round(out.get('compile_s', 0), 1)}
         for cf in out['compile_fail']:
